@@ -1,10 +1,125 @@
-import Decstr.Spec.Judge
+import Decstr.Model.Convert
 /-!
-# Model.Api — the model's answer to every request of the line protocol
+# Model.Api — the model's answer to every request of the line protocol (see `Decstr/Driver.lean`)
 -/
 namespace Decstr.Model
+open Decstr.Spec (Ty PAns OAns ErrFacts)
 
-/-- The model's answer (as protocol tokens) to a request; `none` = operation not modelled. -/
-def answer (_req : List String) : Option (List String) := none
+def errFacts : Err → ErrFacts
+  | .parse (.char c) => ⟨"char", c, 0, 0⟩
+  | .parse .endOfInput => ⟨"end", 0, 0, 0⟩
+  | .parse .bufferTooSmall => ⟨"buffer", 0, 0, 0⟩
+  | .parse .source => ⟨"source", 0, 0, 0⟩
+  | .overflow (.wouldOverflow m r) => ⟨"overflow", m, r, 0⟩
+  | .overflow (.exponentOutOfRange m) => ⟨"expoverflow", m, 0, 0⟩
+  | .overflow (.sizeMismatch g r) => ⟨"size", g, r, 0⟩
+
+def pans : Except Err Buf → PAns
+  | .ok b => .ok b.toBytes
+  | .error e => .err (errFacts e)
+
+def resPAns : Res → PAns
+  | .ok b => .ok b.toBytes
+  | .none => .none
+  | .panic => .panic
+
+def oans : Option Int → OAns
+  | some v => .some v
+  | none => .none
+
+def parseFault (s : String) : Fault :=
+  if s == "swallow" then .swallow
+  else if s.startsWith "fail:" then .failAt ((s.drop 5).toNat?.getD 0)
+  else .none
+
+/-- first token of the printed text after the sign -/
+def firstTok (t : List Nat) : Bool × String :=
+  let neg := t.head? == some 45
+  let r := if neg then t.drop 1 else t
+  (neg, match r with
+    | 105 :: _ => "inf"
+    | 110 :: _ => "nan"
+    | 115 :: _ => "snan"
+    | c :: _ => if Spec.isDigit c then "d" else "other"
+    | [] => "other")
+
+structure Io where
+  unhex : String → Option (List Nat)
+  hex : List Nat → String
+  showPAns : PAns → String
+  showOAns : OAns → String
+  showFAns : Nat → OAns → String
+  parseFrags : String → Option (List (List Nat))
+  parseInt : String → Option Int
+  hexNat : String → Option Nat
+
+def b2s (b : Bool) : String := if b then "1" else "0"
+
+/-- The model's answer (as protocol tokens) to a request; `none` = not modelled / malformed. -/
+def answerWith (io : Io) (req : List String) : Option (List String) :=
+  match req with
+  | ["parse_str", t, txt] => do
+      let T ← Ty.ofName t; let txt ← io.unhex txt
+      match tryParseStr T txt with
+      | .ok b => pure [io.showPAns (.ok b.toBytes), io.hex (toText T b)]
+      | .error e => pure [io.showPAns (.err (errFacts e))]
+  | ["parse_fmt", t, _cap, frs, fault] => do
+      let T ← Ty.ofName t; let frs ← io.parseFrags frs
+      pure [io.showPAns (pans (tryParse T frs (parseFault fault)))]
+  | ["format", t, b] => do
+      let T ← Ty.ofName t; let b ← io.unhex b
+      pure ["ok", io.hex (toText T (Buf.ofBytes b)), "1"]
+  | ["roundtrip", t, b] => do
+      let T ← Ty.ofName t; let b ← io.unhex b
+      let txt := toText T (Buf.ofBytes b)
+      let back := tryParseStr T txt
+      let stable := match back with
+        | .ok b2 => (match tryParseStr T (toText T b2) with | .ok b3 => b3.toBytes == b2.toBytes | _ => false)
+        | _ => true
+      pure ["ok", io.hex txt, io.showPAns (pans back), b2s stable]
+  | ["classify", t, b] => do
+      let T ← Ty.ofName t; let b ← io.unhex b
+      let buf := Buf.ofBytes b
+      let (neg, tok) := firstTok (toText T buf)
+      pure ["cls", String.join ([isSignNegative buf, isFinite buf, isInfinite buf, isNan buf, isQuietNan buf, isSignalingNan buf].map b2s),
+            b2s neg, tok]
+  | ["to_int", t, b, i] => do
+      let T ← Ty.ofName t; let b ← io.unhex b; let I ← Spec.IntTy.ofName i
+      pure [io.showOAns (oans (toInt T (Buf.ofBytes b) I))]
+  | ["from_int", t, i, v] => do
+      let T ← Ty.ofName t; let I ← Spec.IntTy.ofName i; let v ← io.parseInt v
+      match fromInt T I v with
+      | .ok b => pure [io.showPAns (.ok b.toBytes), io.hex (toText T b), io.showOAns (oans (toInt T b I))]
+      | r => pure [io.showPAns (resPAns r)]
+  | ["to_float", t, b, f] => do
+      let T ← Ty.ofName t; let b ← io.unhex b; let B ← Spec.BinFmt.ofName f
+      let r := toFloat (Buf.ofBytes b) B
+      -- `Bitstring32::to_f64` is the one infallible decimal-to-float conversion: a failure there is a panic
+      if T == .b32 && B.prec == 53 && r.isNone then pure ["panic"]
+      else pure [io.showFAns (B.width / 4) (oans (r.map Int.ofNat))]
+  | ["from_float", t, f, bits, ryu] => do
+      let T ← Ty.ofName t; let B ← Spec.BinFmt.ofName f; let bits ← io.hexNat bits; let ryu ← io.unhex ryu
+      match fromFloat T B bits ryu with
+      | .ok b =>
+        let back := toFloat b B
+        pure [io.showPAns (.ok b.toBytes), io.hex (toText T b),
+              if T == .b32 && B.prec == 53 && back.isNone then "panic" else io.showFAns (B.width / 4) (oans (back.map Int.ofNat))]
+      | r => pure [io.showPAns (resPAns r)]
+  | ["bytes", _, b] => do
+      let b ← io.unhex b
+      pure ["api", io.hex (Buf.ofBytes b).toBytes, io.hex b.reverse, io.hex b.reverse]
+  | ["try_le", t, b] => do
+      let T ← Ty.ofName t; let b ← io.unhex b
+      pure [io.showPAns (pans (liftOverflow (tryFromLeBytes T b)))]
+  | ["consts", t] => do
+      let T ← Ty.ofName t
+      let n ← T.fixedN
+      let f : Spec.Fmt := ⟨n⟩
+      let mx := (encodeMax (4 * n) false).toBytes
+      let mn := (encodeMax (4 * n) true).toBytes
+      let mp := (encodeMin (4 * n) false).toBytes
+      pure ["consts", io.hex mx, io.hex mn, io.hex mp, io.hex mx, io.hex mn, io.hex mp,
+            toString f.p, toString f.qmin, toString f.qmax]
+  | _ => none
 
 end Decstr.Model
